@@ -502,16 +502,6 @@ theorem wrapSingle_yes (id : Option String) (ctx : Ctx) (k : Ctx → Except Err 
 def tidyI (c : Chan) (I : List Item) : Prop := allLeavesList (tidy c) (itemsNodes I) = true
 def nnI (I : List Item) : Prop := allLeavesList nonnegW (itemsNodes I) = true
 
-theorem rel_nil (c : Chan) (T : Chain) : Rel c T [] [] where
-  empty := Iff.rfl
-  dur := rfl
-  win := List.Perm.refl _
-  pres := by simp [allPres, itemsNodes, allLeavesList]
-  samp := by
-    intro _ t h0 ht
-    simp [itemsDur, itemsNodes, Loop.durationList] at ht
-    exact absurd ht (by grind)
-
 /-- a collapsed part plays the global transformation applied to what its inner program plays -/
 theorem collapsed_rel (c : Chan) (T : Chain) (I0 I : List Item) (hinv : Inv I0)
     (h : (toProgram I0 = none ∧ I = []) ∨
